@@ -537,7 +537,7 @@ def preamble_only(a, b):
 
 class Oracle:
     def __init__(self, ctx):
-        self.ctx, self.n, self.stats, self.seen = ctx, 0, {}, {}
+        self.ctx, self.n, self.stats, self.seen, self.warm2 = ctx, 0, {}, {}, None
 
     def count(self, k):
         self.stats[k] = self.stats.get(k, 0) + 1
@@ -551,6 +551,8 @@ class Oracle:
                 self.n += 1
                 return
         c = {"req": case["req"], "tag": case["tag"], "kind": case["kind"]}
+        if case.get("second_process"):
+            c["class_first_use_order"] = self.warm2
         self.n += bool(self.ctx.violation(what, c, key=key, expected=expected, observed=observed if observed is not None else res))
 
     def no_raise(self, case, res, key=None):
@@ -883,13 +885,29 @@ CASE_TYPES = {"m2p2m": ("ctab * cls * body * obs packet * obs (cls * body)", "ch
               "convert": ("ctab * packet * obs (cls * body) * obs packet", "check_convert")}
 
 
-def run_impl_all(cases):
-    res = C.run_impl("C03.py", {"cases": [c["req"] for c in cases]})["res"]
+def run_impl_all(cases, rng=None):
+    """Runs every case in TWO driver processes that first use the wrapper classes in opposite orders
+    (a random order of all 23 classes and its reverse: for every pair of classes both relative orders
+    occur; the second process also runs the cases in a shuffled order), so that a dependence on the
+    order in which classes / cases are used in a process surfaces.  Returns the results of both."""
+    from concurrent.futures import ThreadPoolExecutor
+    import random
+    rng = rng or random.Random(0)
+    reqs = [c["req"] for c in cases]
+    warm = sorted(U.CLS)
+    rng.shuffle(warm)
+    order2 = list(range(len(cases)))
+    rng.shuffle(order2)
+    with ThreadPoolExecutor(2) as ex:
+        fa = ex.submit(C.run_impl, "C03.py", {"cases": reqs, "warmup": warm})
+        fb = ex.submit(C.run_impl, "C03.py", {"cases": reqs, "warmup": warm[::-1], "order": order2})
+        res, res2 = fa.result()["res"], fb.result()["res"]
     qlist = [queries_of(c, r) for c, r in zip(cases, res)]
-    uniq = sorted({q for qs in qlist for q in qs})
+    qlist2 = [queries_of(c, r) for c, r in zip(cases, res2)]
+    uniq = sorted({q for qs in qlist + qlist2 for q in qs})
     out = C.run_impl("C03.py", {"cases": [], "codec": [[k, b.hex()] for k, b in uniq]})["codec"]
     cres = dict(zip(uniq, out))
-    return res, qlist, cres
+    return res, qlist, cres, res2, qlist2, warm
 
 
 def load_corpus():
@@ -931,13 +949,21 @@ def run(ctx):
     # ---- generation + implementation --------------------------------------------------------
     corpus = load_corpus()
     cases = [dict(w["case"], corpus=w["file"]) for w in corpus] + generate(ctx)
-    res, qlist, cres = run_impl_all(cases)
-    ctx.log("implementation: %d cases, %d distinct codec queries" % (len(cases), len(cres)))
-    ctx.cov["evaluations"] = len(cases)
-    ctx.cov["traces_validated_against_impl"] = len(cases)
+    res, qlist, cres, res2, qlist2, warm = run_impl_all(cases, ctx.rng)
+    differ = [i for i in range(len(cases)) if res[i] != res2[i]]
+    ctx.log("implementation: %d cases x 2 processes (opposite class orders), %d distinct codec queries, %d cases differ between the processes"
+            % (len(cases), len(cres), len(differ)))
+    ctx.cov["evaluations"] = 2 * len(cases)
+    ctx.cov["traces_validated_against_impl"] = 2 * len(cases)
+    # the second process: same cases appended (only those whose outcome differs go to Coq again; all go to the oracle)
+    n1 = len(cases)
+    cases = cases + [dict(cases[i], second_process=True) for i in range(n1)]
+    res = res + res2
+    qlist = qlist + qlist2
 
     # ---- oracle -------------------------------------------------------------------------------
     orc = Oracle(ctx)
+    orc.warm2 = warm[::-1]
     canon = [canonical(qs, cres) for qs in qlist]
     for c, r, cn in zip(cases, res, canon):
         getattr(orc, c["req"]["op"])(c, r, cn)
@@ -948,7 +974,10 @@ def run(ctx):
     terms = {"m2p2m": [], "p2m2p": [], "convert": []}
     index = {"m2p2m": [], "p2m2p": [], "convert": []}
     unmodellable, skipped = [], 0
+    in_coq = set(range(n1)) | {n1 + i for i in differ}
     for i, (c, r, qs) in enumerate(zip(cases, res, qlist)):
+        if i not in in_coq:
+            continue
         try:
             kind, t = case_term(c, r, qs, cres)
         except SkipCase:
@@ -987,7 +1016,8 @@ def run(ctx):
                        "802.15.4 frame type x addressing mode, ESB/Unifying frame type, lengths 0..max, x presence subsets of the optional "
                        "metadata items x boundary values. Non-trivial = well-formed or sendable input (the round trip is demanded); distinct by content hash")
     uncovered = [k for k in U.CLS if not any(c["req"].get("cls") == k for c in cases) and not k.startswith(("ble.send", "dot15d4.send", "esb.send", "unifying.send", "phy.send"))]
-    ctx.cov["distribution"] = {"by_op_and_class": by, "oracle": orc.stats, "codec_queries": len(cres),
+    ctx.cov["distribution"] = {"class_first_use_orders": [warm, warm[::-1]], "cases_differing_between_processes": len(differ),
+                               "by_op_and_class": by, "oracle": orc.stats, "codec_queries": len(cres),
                                "codec_struct_error": sum(1 for v in cres.values() if "struct" in v),
                                "codec_other_exception": sum(1 for v in cres.values() if "exc" in v),
                                "not_expressible_in_model": len(unmodellable), "inputs_not_buildable": skipped, "model_branches": branches,
@@ -1025,7 +1055,7 @@ def replay(payload):
     case = payload.get("case") or payload.get("first_disagreeing_case")
     print(json.dumps(case)[:3000])
     if case and "req" in case:
-        r = C.run_impl("C03.py", {"cases": [case["req"]]})["res"][0]
+        r = C.run_impl("C03.py", {"cases": [case["req"]], "warmup": case.get("class_first_use_order", [])})["res"][0]
         print("implementation now gives:")
         for k, v in r.items():
             print("  ", k, json.dumps(v)[:1500])
